@@ -92,9 +92,11 @@ Proof.
     pinv; auto.
   - inversion H; subst; clear H. pinv; auto.
   - inversion H; subst; clear H. pinv; auto. apply Hr in Hin. lia.
-  - inversion H; subst; clear H. pinv; auto.
-    apply filter_In in Hin. destruct Hin as [H1 H2]. apply Nat.leb_le in H2. apply in_nat_dedup in H1. apply in_map_iff in H1.
-    destruct H1 as (r0 & <- & Hr0). apply Hr in Hr0. lia.
+  - inversion H; subst; clear H. split; [|split; [exact Hs | exact Hn]].
+    intros r Hin. cbn [p_retired p_running p_target] in Hin |- *.
+    apply filter_In in Hin. destruct Hin as [H1 H2]. apply Nat.leb_le in H2. apply in_nat_dedup in H1. apply in_flat_map in H1.
+    destruct H1 as (r0 & Hr0 & H1). apply in_map_iff in H1. destruct H1 as (j & <- & Hj). apply in_seq in Hj.
+    apply Hr in Hr0. lia.
 Qed.
 
 Fixpoint has_remove (tr : list pev) : bool :=
